@@ -1204,6 +1204,20 @@ FUNCS = [
          verbatim=[("match std::fs::metadata(root.join(&rel)) { Ok(meta) => { out.insert( rel, FileMeta { size: meta.len(), mtime: mtime_secs(&meta), }, ); } "
                     "Err(e) if e.kind() == std::io::ErrorKind::NotFound => {} Err(e) => return Err(e.into()), }",
                     "match metadata rel with\n| StatRes.ok m_ => out := Copia.ScanSupport.mapIns out rel m_\n| StatRes.notFound => pure ()\n| StatRes.otherError => return none")]),
+    dict(group="scan", file="src/bin/copia/meta.rs", name="parse_remote_meta_output", sig="fn parse_remote_meta_output(stdout: &[u8]) -> MetaMap",
+         lean="def parseRemoteMetaGen (stdout : List Char) : List (List Char × Copia.Plan.FileMeta) := Id.run do",
+         paths={"MetaMap::new": "[]", "String::from_utf8_lossy": "id", "PathBuf::from": "id"}, calls={},
+         structs=("FileMeta",),
+         methods={"is_empty": lambda r, a: f"{r}.isEmpty"},
+         mutators={("out", "insert"): lambda a: f"out := Copia.Meta.insertAL out {a[0]} {a[1]}"},
+         block_heads=[dict(rust="for entry in stdout.split(|&b| b == 0) {", indent=2, before="for entry in Copia.Meta.splitOnChar '\\x00' stdout do")],
+         verbatim=[("let mut parts = s.splitn(3, '\\t');", ""),
+                   ("let (Some(size), Some(mtime), Some(path)) = (parts.next(), parts.next(), parts.next()) else { continue; };",
+                    "let some (size, rest_) := Copia.Meta.cut '\\t' s | continue\nlet some (mtime, path) := Copia.Meta.cut '\\t' rest_ | continue"),
+                   ("let Ok(size) = size.parse::<u64>() else { continue; };", "let some size := Copia.Meta.parseU64 size | continue"),
+                   ("let mtime = mtime .split('.') .next() .and_then(|s| s.parse::<i64>().ok()) .unwrap_or(0);",
+                    "let mtime := match Copia.Meta.splitOnChar '.' mtime with\n  | h :: _ => (Copia.Meta.parseI64 h).getD 0\n  | [] => 0"),
+                   ('let rel = path.strip_prefix("./").unwrap_or(path);', "let rel := Copia.Meta.stripDotSlash path")]),
     dict(group="hubsync", file="src/bin/copia/hub.rs", fn="hub_sync", sig=None,
          name="hub_sync (the push loop: from the counters to the end of the `for`)",
          slice=("let (mut sent, mut skipped, mut conflicts) = (0u64, 0u64, 0u64);", "hub kept a conflict-copy\");"), slice_close=2,
@@ -1353,7 +1367,7 @@ GROUP_HEAD = {
     "hub": ("import Copia.Model.Hub", "open Copia.Hub (Comp components)"),
     "hubsync": ("import Copia.Model.HubSync", ""),
     "archive": ("", ""),
-    "scan": ("import Copia.Model.ScanSupport", "open Copia.ScanSupport (StatRes)"),
+    "scan": ("import Copia.Model.ScanSupport\nimport Copia.Model.Meta", "open Copia.ScanSupport (StatRes)"),
     "codec": ("import Copia.Model.Codec\nimport Copia.Gen.Decisions", "open Copia.Codec"),
     "wire": ("import Copia.Model.Hub\nimport Copia.Model.WireSupport", "open Copia.WireSupport (FrameRes)\nopen Copia.Hub (Req Reply Session Exit HTree)"),
     "hubput": ("import Copia.Model.HubTrace\nimport Copia.Model.HubGetSolo\nimport Copia.Model.Hub", "open Copia.HubConc (Call Chunk Hash)\nopen Copia.HubGet (GCall)"),
